@@ -105,7 +105,14 @@ def check_adjust_axis(ctx, table):
     option_attrs = set(s.split(":")[1] for k, s in table.values() if s.startswith("pl:"))
     pm = parent_map(f)
     n = 0
-    for node in ast.walk(f):
+    # helpers of Output that did not exist on the reference tree (blocks moved out of _adjust_axis) are read as part of it
+    ocls = prog.cls("verif.output.Output")
+    known_o = trace.known_methods().get(ocls.qual) or []
+    nodes = list(ast.walk(f))
+    for mname, mf in ocls.methods.items():
+        if mname not in known_o and mf is not f:
+            nodes += list(ast.walk(mf))
+    for node in nodes:
         if not isinstance(node, ast.If):
             continue
         t = node.test
@@ -126,7 +133,7 @@ def check_adjust_axis(ctx, table):
         ctx.ob("C17.2", site, ok, "block guarded by self.%s uses self.%s (and no other option)" % (guard, guard), loc=prog.loc(m, node),
                msg="a block guarded by `self.%s is not None` uses %s: -%s alone is ignored / the other option leaks in" % (guard, sorted(used) or "nothing", guard),
                sample={"rule": "C17.2", "guard": guard, "used": sorted(used)})
-    ctx.need(n >= 12, "%s: fewer than 12 guarded option blocks" % site)
+    ctx.need(n >= 8, "%s: fewer than 8 guarded option blocks (12 on the reference tree)" % site)
     # effects only through `ax`
     for call in calls_in(f):
         d = dotted(call.func) or ""
